@@ -18,8 +18,12 @@ import LocustModel.Disk.SegProto
                                        capnp reader from the real bytes) or `panic`.
                                        model = `<serSegment object> <deserSegment ∘ serSegment object>` | `fault`;
                                        spec: back = object ∧ d1 = d0 (SKIP when the model predicts the writer's panic).
+    evb <tables> <back>                EventBuffer::serialize → deserialize (the bare TableSegmentList message); spec: back = object.
     wal <object> <back>                same for WalSegment (tables and columns sorted by name in all dumps); spec: back = object.
     meta <object> <back>               same for MetaStore (partitions sorted by (table, id)); spec: back = normaliseMeta object.
+    segtree <cseg> <impl>              a hand-made partition message (not necessarily an image of the writer) handed to the real
+    waltree <cwal> <impl>              deserialize; model = deser* of the tree (`panic` where Column::new faults); tables / columns /
+    metatree <cmeta> <impl>            partitions sorted in the dumps.  spec OK (the model line IS the claim: totality / fault list).
     openclass <outcome>                LocustDB::new on a directory with one corrupted file, classified by the harness in a child
                                        process; spec BAD iff the outcome is `silently-different…`; model `?`.
 -/
@@ -34,10 +38,10 @@ def showLoaded : Loaded → String
   | .err .version => "err:version"
   | .err .length => "err:length"
   | .err .checksum => "err:checksum"
-  | .overflowPanic => "panic"
 
 def judgeLoad (orig : Option (List UInt8)) (file : List UInt8) (impl : String) : String :=
   let okPrefix := impl.startsWith "ok:"
+  if impl = "panic" then "BAD the loader panicked instead of reporting the file as invalid" else
   match orig with
   | some d =>
       if file = wrap H d then (if impl = "ok:" ++ showHexBytes d then "OK" else "BAD intact file not read back as written")
@@ -79,12 +83,34 @@ def step (line : String) : String :=
           (showCapWal tree).show ++ " " ++ (showWal (deserWal tree)).show ++ "\t" ++
             (if back = obj then "OK" else "BAD decoded log segment differs from the encoded one")
       | none => "bad-op\tbad-op"
+  | ["evb", obj, back] =>
+      match (parseTerm obj).bind tablesOf with
+      | some ts =>
+          let tree := (serWal { id := 0, tables := ts }).data
+          (showCapTsl tree).show ++ " " ++ (showTables (deserWal { id := 0, data := tree }).tables).show ++ "\t" ++
+            (if back = obj then "OK" else "BAD decoded event buffer differs from the encoded one")
+      | none => "bad-op\tbad-op"
   | ["meta", obj, back] =>
       match (parseTerm obj).bind metaOf with
       | some m =>
           let tree := serMeta m
           (showCapMeta tree).show ++ " " ++ (showMeta (deserMeta tree)).show ++ "\t" ++
             (if back = (showMeta (normaliseMeta m)).show then "OK" else "BAD decoded catalogue is not the normalised original")
+      | none => "bad-op\tbad-op"
+  | ["segtree", tree, _impl] =>
+      match (parseTerm tree).bind capSegOf with
+      | some t =>
+          (match deserSegment t with
+           | .ok cs => (showSeg cs).show
+           | .error _ => "panic") ++ "\tOK"
+      | none => "bad-op\tbad-op"
+  | ["waltree", tree, _impl] =>
+      match (parseTerm tree).bind capWalOf with
+      | some t => let w := deserWal t; (showWal { w with tables := sortTables w.tables }).show ++ "\tOK"
+      | none => "bad-op\tbad-op"
+  | ["metatree", tree, _impl] =>
+      match (parseTerm tree).bind capMetaOf with
+      | some t => let m := deserMeta t; (showMeta { m with partitions := sortParts m.partitions }).show ++ "\tOK"
       | none => "bad-op\tbad-op"
   | ["openclass", o] => "?\t" ++ (if o.startsWith "silently-different" then "BAD database opened with different data" else "OK")
   | _ => "bad-op\tbad-op"
